@@ -58,6 +58,35 @@ func replayPDU(arg string) string {
 				return "cannot rebuild the value: " + err.Error()
 			}
 			out = append(out, "value: "+coqValue(p))
+			for _, key := range []string{"failed_call_before", "failed_call_between"} {
+				if rp[key] == nil {
+					continue
+				}
+				var hx struct {
+					Kind, What, Type string
+					JSON             json.RawMessage `json:"json"`
+					Room             int
+				}
+				_ = json.Unmarshal(rp[key], &hx)
+				for _, u := range pduTypes() {
+					if u.Name != hx.Type {
+						continue
+					}
+					bad := reflect.New(u.T).Interface()
+					_ = json.Unmarshal(hx.JSON, bad)
+					x := poison{kind: hx.Kind, what: hx.What, p: bad, room: hx.Room}
+					if key == "failed_call_between" {
+						q := reflect.New(t.T).Interface()
+						_ = json.Unmarshal(rp["json"], q)
+						_, e0, w0, _, _ := marshalRec(q)
+						if e0 == nil && len(w0.calls) > 0 {
+							out = append(out, "first Marshal of the value: "+hex.EncodeToString(w0.calls[0]))
+						}
+					}
+					failed, pk, pm := x.run()
+					out = append(out, fmt.Sprintf("then a Marshal that must fail (%s): failed=%v panicked=%v %s; then the value is marshalled:", x, failed, pk, pm))
+				}
+			}
 			n, err, w, panicked, pmsg := marshalRec(p)
 			out = append(out, fmt.Sprintf("Marshal: n=%d err=%v panicked=%v %s writes=%d", n, err, panicked, pmsg, len(w.calls)))
 			if rp["dest"] != nil {
